@@ -25,6 +25,7 @@ Emit ==
     Done => CSVWrite("%1$s", <<ToJson([n |-> N, h |-> H, quorum |-> Quorum, seed |-> Seed,
                                        excluded |-> SortedSeq(excluded),
                                        signers |-> SortedSeq(signers),
+                                       proto |-> [size |-> proto.size, dishonest |-> proto.dishonest, excl |-> SortedSeq(proto.excl)],
                                        outcome |-> outcome,
                                        members |-> [m \in Members |-> MemberView(m)]])>>,
                       "cases.ndjson")
